@@ -4,9 +4,11 @@
 package c05
 
 import (
+	"encoding/json"
 	"fmt"
 	"math"
 	"sort"
+	"strconv"
 	"strings"
 	"testing"
 	"unicode/utf8"
@@ -334,6 +336,27 @@ func run(c Case) ([]vk.Violation, vk.Info) {
 	if _, ok := idx[s2.Equivalent()]; !ok {
 		bad("map_key_unstable", "Equivalent() of an equal set misses as map key: %v", want)
 	}
+	// the same mapping obtained through the other constructors of every value
+	// type (attribute.Int / IntSlice / Key.X / XValue / Stringer ...)
+	for shift := 0; shift < 3; shift++ {
+		alt := make([]attribute.KeyValue, 0, len(m.keys))
+		for i, k := range m.keys {
+			alt = append(alt, altKeyValue(k, m.val[k], i+shift))
+		}
+		s3 := attribute.NewSet(alt...)
+		if !sameStrings(renderSlice(s3.ToSlice()), want) {
+			bad("constructor_sensitive", "the set built through alternative constructors (variant %d) holds %v, model %v", shift, renderSlice(s3.ToSlice()), want)
+		} else if !s.Equals(&s3) || !s3.Equals(&s) || s.Equivalent() != s3.Equivalent() {
+			bad("constructor_sensitive", "the set built through alternative constructors (variant %d) holds the same key -> typed value mapping %v but is not Equal / has another Equivalent()", shift, want)
+		}
+	}
+	// what Emit renders can be read back into the value (an independent
+	// reading of "encoding agrees with the contents")
+	for _, k := range m.keys {
+		if why := emitDisagrees(m.val[k]); why != "" {
+			bad("emit_disagrees", "key %q: %s", k, why)
+		}
+	}
 	other := vk.ToAttrs(c.Other)
 	om := newModel(other)
 	so := attribute.NewSet(append([]attribute.KeyValue{}, other...)...)
@@ -543,11 +566,136 @@ func TestSetModel(t *testing.T) {
 			// an attribute.Set holding a FLOAT64SLICE with NaN is not equal to itself.
 			"float64slice_contains_nan": func(c Case, v vk.Violation) bool {
 				switch v.Kind {
-				case "not_self_equal", "order_dup_sensitive", "map_key_unstable", "same_mapping_not_equal", "map_key_identity":
+				case "not_self_equal", "order_dup_sensitive", "constructor_sensitive", "map_key_unstable", "same_mapping_not_equal", "map_key_identity":
 					return newModel(vk.ToAttrs(c.KVs)).hasNaNSlice()
 				}
 				return false
 			},
 		},
 	})
+}
+
+type strer string
+
+func (s strer) String() string { return string(s) }
+
+// altKeyValue builds k -> v through the n-th of the public constructors that
+// yield this typed value.
+func altKeyValue(k string, v attribute.Value, n int) attribute.KeyValue {
+	key := attribute.Key(k)
+	switch v.Type() {
+	case attribute.BOOL:
+		b := v.AsBool()
+		return [...]attribute.KeyValue{attribute.Bool(k, b), key.Bool(b), {Key: key, Value: attribute.BoolValue(b)}}[n%3]
+	case attribute.INT64:
+		i := v.AsInt64()
+		return [...]attribute.KeyValue{attribute.Int64(k, i), attribute.Int(k, int(i)), key.Int64(i), key.Int(int(i)), {Key: key, Value: attribute.IntValue(int(i))}, {Key: key, Value: attribute.Int64Value(i)}}[n%6]
+	case attribute.FLOAT64:
+		f := v.AsFloat64()
+		return [...]attribute.KeyValue{attribute.Float64(k, f), key.Float64(f), {Key: key, Value: attribute.Float64Value(f)}}[n%3]
+	case attribute.STRING:
+		str := v.AsString()
+		return [...]attribute.KeyValue{attribute.String(k, str), key.String(str), attribute.Stringer(k, strer(str)), {Key: key, Value: attribute.StringValue(str)}}[n%4]
+	case attribute.BOOLSLICE:
+		bs := v.AsBoolSlice()
+		return [...]attribute.KeyValue{attribute.BoolSlice(k, bs), key.BoolSlice(bs), {Key: key, Value: attribute.BoolSliceValue(bs)}}[n%3]
+	case attribute.INT64SLICE:
+		is := v.AsInt64Slice()
+		ints := make([]int, len(is))
+		for j, x := range is {
+			ints[j] = int(x)
+		}
+		var nilInts []int
+		if len(ints) == 0 && n%2 == 1 {
+			ints = nilInts
+		}
+		return [...]attribute.KeyValue{attribute.Int64Slice(k, is), attribute.IntSlice(k, ints), key.Int64Slice(is), key.IntSlice(ints), {Key: key, Value: attribute.IntSliceValue(ints)}, {Key: key, Value: attribute.Int64SliceValue(is)}}[n%6]
+	case attribute.FLOAT64SLICE:
+		fs := v.AsFloat64Slice()
+		return [...]attribute.KeyValue{attribute.Float64Slice(k, fs), key.Float64Slice(fs), {Key: key, Value: attribute.Float64SliceValue(fs)}}[n%3]
+	case attribute.STRINGSLICE:
+		ss := v.AsStringSlice()
+		return [...]attribute.KeyValue{attribute.StringSlice(k, ss), key.StringSlice(ss), {Key: key, Value: attribute.StringSliceValue(ss)}}[n%3]
+	}
+	return attribute.KeyValue{Key: key, Value: v}
+}
+
+// emitDisagrees reads v.Emit() back and compares it with the contents. It
+// returns "" when they agree. Non-finite floats inside a FLOAT64SLICE have no
+// JSON form: only a non-empty rendering is asked for there.
+func emitDisagrees(v attribute.Value) string {
+	e := v.Emit()
+	switch v.Type() {
+	case attribute.BOOL:
+		if b, err := strconv.ParseBool(e); err != nil || b != v.AsBool() {
+			return fmt.Sprintf("Emit() = %q for the bool %v", e, v.AsBool())
+		}
+	case attribute.INT64:
+		if i, err := strconv.ParseInt(e, 10, 64); err != nil || i != v.AsInt64() {
+			return fmt.Sprintf("Emit() = %q for the int64 %d", e, v.AsInt64())
+		}
+	case attribute.FLOAT64:
+		f, err := strconv.ParseFloat(e, 64)
+		w := v.AsFloat64()
+		if err != nil || !(f == w || (f != f && w != w)) {
+			return fmt.Sprintf("Emit() = %q for the float64 %v", e, w)
+		}
+	case attribute.STRING:
+		if e != v.AsString() {
+			return fmt.Sprintf("Emit() = %q for the string %q", e, v.AsString())
+		}
+	case attribute.BOOLSLICE:
+		var got []bool
+		for _, f := range strings.Fields(strings.Trim(e, "[]")) {
+			b, err := strconv.ParseBool(f)
+			if err != nil {
+				return fmt.Sprintf("Emit() = %q for the bool slice %v", e, v.AsBoolSlice())
+			}
+			got = append(got, b)
+		}
+		if fmt.Sprint(got) != fmt.Sprint(append([]bool(nil), v.AsBoolSlice()...)) {
+			return fmt.Sprintf("Emit() = %q for the bool slice %v", e, v.AsBoolSlice())
+		}
+	case attribute.INT64SLICE:
+		var got []int64
+		if err := json.Unmarshal([]byte(e), &got); err != nil || fmt.Sprint(got) != fmt.Sprint(append([]int64(nil), v.AsInt64Slice()...)) {
+			return fmt.Sprintf("Emit() = %q for the int64 slice %v", e, v.AsInt64Slice())
+		}
+	case attribute.FLOAT64SLICE:
+		w := v.AsFloat64Slice()
+		for _, f := range w {
+			if math.IsNaN(f) || math.IsInf(f, 0) {
+				if e == "" {
+					return fmt.Sprintf("Emit() is empty for the float64 slice %v", w)
+				}
+				return ""
+			}
+		}
+		var got []float64
+		if err := json.Unmarshal([]byte(e), &got); err != nil || len(got) != len(w) {
+			return fmt.Sprintf("Emit() = %q for the float64 slice %v", e, w)
+		}
+		for i := range w {
+			if got[i] != w[i] {
+				return fmt.Sprintf("Emit() = %q for the float64 slice %v", e, w)
+			}
+		}
+	case attribute.STRINGSLICE:
+		w := v.AsStringSlice()
+		for _, x := range w {
+			if !utf8.ValidString(x) {
+				return "" // JSON replaces invalid bytes: not asserted
+			}
+		}
+		var got []string
+		if err := json.Unmarshal([]byte(e), &got); err != nil || len(got) != len(w) {
+			return fmt.Sprintf("Emit() = %q for the string slice %q", e, w)
+		}
+		for i := range w {
+			if got[i] != w[i] {
+				return fmt.Sprintf("Emit() = %q for the string slice %q", e, w)
+			}
+		}
+	}
+	return ""
 }
